@@ -102,7 +102,8 @@ PROPS = {
                       "accepted Add appends exactly that sample, rejected Add is a no-op, every chunk <= N and every chunk but the last = N for every sequence of Adds; "
                       "streaming and schema-aware streaming collectors (streaming_faithful_log, streaming_dynamic_faithful_log): after any sequence of Adds over a writer that "
                       "accepts every write, the samples in the writer followed by the pending ones are exactly the accepted samples, once each and in order - across every "
-                      "automatic flush and every schema-change flush.",
+                      "automatic flush and every schema-change flush; streaming_writer_decodes_to_accepted: every chunk in the writer is DECODED by the reader model (C01's "
+                      "decode_payload) to exactly the samples it holds, so what is decodable from the writer plus the pending samples is exactly what was accepted.",
         "level_note": "The dynamic (non-streaming) collector is a composition of batch collectors (one-step laws in C08); its whole-history behaviour, Reset/Resolve/Flush interleaved "
                       "with Adds on the streaming collectors, wrapper stacking and the decode step for them (C01 proves it for the base collector) are covered by the "
                       "correspondence run, not by a composed theorem. The sampling collector depends on "
